@@ -575,16 +575,26 @@ def r3_reserved_parts_cover_generated_names(ctx, rid):
     seen = set()
     for s in sites:
         if s.dict_name is None:
-            keys = [(k, s.stmt) for k in [s.stmt.targets[0].slice]]
+            keys = [(k, s.stmt, s.f) for k in [s.stmt.targets[0].slice]]
         else:
-            keys = dict_key_exprs(s.f, s.dict_name)
+            keys = [(k, st, s.f) for k, st in dict_key_exprs(s.f, s.dict_name)]
+            if not keys and s.dict_name in s.f.params:
+                # the injection was extracted into a helper that receives the dict: its keys are stored by the callers
+                for caller, call in ctx.cg.call_sites_of(s.f):
+                    a = _bind_args(s.f, call).get(s.dict_name)
+                    if not isinstance(a, ast.Name):
+                        raise AnalysisError(f"{rid}: {caller.qual}: the dict handed to {s.f.qualname} as `{s.dict_name}` is not a local name")
+                    found = dict_key_exprs(caller, a.id)
+                    if not found:
+                        raise AnalysisError(f"{rid}: {caller.qual}: no key stores into `{a.id}` (injected by {s.f.qualname}) found")
+                    keys += [(k, st, caller) for k, st in found]
         if not keys:
             raise AnalysisError(f"{rid}: {s.f.qual}: no key stores into the injected dict `{s.dict_name}` found")
-        for kexpr, kst in keys:
-            for tpl, node in key_templates(ctx, s.f, kexpr):
-                if (s.f.qual, tpl) in seen:
+        for kexpr, kst, kf in keys:
+            for tpl, node in key_templates(ctx, kf, kexpr):
+                if (kf.qual, tpl) in seen:
                     continue
-                seen.add((s.f.qual, tpl))
+                seen.add((kf.qual, tpl))
                 why = None
                 for piece in literal_pieces(tpl):
                     why = why or reserved.why(piece)
@@ -592,12 +602,12 @@ def r3_reserved_parts_cover_generated_names(ctx, rid):
                 label = f"generated name `{tpl}` in a declared operator"
                 if why:
                     facts["reserved_because"] = why
-                    ctx.ok(rid, s.f, kst, f"`{tpl}` {why}: no declared variable can carry it", facts, label=label)
+                    ctx.ok(rid, kf, kst, f"`{tpl}` {why}: no declared variable can carry it", facts, label=label)
                 elif s.guard is not None:
-                    ctx.ok(rid, s.f, kst, f"`{tpl}` is not reserved, but its injection is dominated by the raising collision test "
+                    ctx.ok(rid, kf, kst, f"`{tpl}` is not reserved, but its injection is dominated by the raising collision test "
                                           f"`{norm(s.guard)}`", facts, label=label)
                 else:
-                    ctx.violation(rid, s.f, kst,
+                    ctx.violation(rid, kf, kst,
                                   f"the compiler names a variable `{tpl}` inside an operator the user declared; that pattern contains none "
                                   f"of the reserved sub-strings {reserved.parts} and the injection `{norm(s.stmt)}` is not protected by a "
                                   f"raising collision test: a declared variable of that name is overwritten", facts, label=label)
